@@ -826,12 +826,14 @@ def backend_checks(ld, r, tier, prop):
     import warnings
     fails, runs = [], 0
     quick = tier == 'quick'
-    backends = ['t', 'concurrent_mp', 'dill_mp', 'mp'] if quick else ['t', 'mp', 'dill_mp', 'multiprocessing', 'concurrent_mp']
+    backends = ['t', False, 'concurrent_mp', 'dill_mp', 'mp'] if quick else ['t', 'thread', False, 'mp', 'dill_mp', 'multiprocessing', 'concurrent_mp']
     classes = ['FnFail', 'Empty', 'KeyError', 'FilterException', 'FnFailBase', 'CancelledError', 'IndexError', 'StopAsyncIteration']
     with warnings.catch_warnings():
         warnings.simplefilter('ignore')
         for be in backends:
-            thread = be == 't'
+            if be is False and prop == 'C06':
+                continue        # backend=False evaluates in the foreground (debugging fallback): nothing runs in the background, so C06 does not speak about it
+            thread = be in ('t', 'thread', False)       # no pickling: every function / exception class can be used
             cfgs = ([(2, 2), (2, 3)] if thread else [(2, 2)]) if quick else [(1, 1), (2, 2), (2, 4), (3, 3), (3, 4)]
             lengths = ((([0, 1, 5] if thread else [5]) if quick else [0, 1, 2, 7, 23])) if prop == 'C04' else ([5] if quick else [4, 9])
             for (w, b) in cfgs:
